@@ -130,6 +130,32 @@ STREAMS = [
 ]
 
 
+def gen_random(rng, tier):
+    """random channel histories (the generator of the channel-simulator properties: re-entrant callbacks, TCP, cookies,
+    socket failures, timers) with one allocation failure at a random index, ended by cancel + destroy (every request called back once, nothing
+    leaked, no sanitizer report)"""
+    n = 400 if tier == "quick" else 12000
+    prof = {"react_prob": 0.5, "cancel_w": 0.05, "sockfail_w": 0.06, "react_cancel_w": 2, "edns_prob": 0.3, "cache_prob": 0.4,
+            "tcp_ops": 0.3, "flagprobs": {0: 0.2, 4: 0.3}, "kinds": [("send", 3), ("query", 1), ("search", 2), ("gai", 2)],
+            "fdreuse_prob": 0.5}
+    cases = []
+    for _ in range(n):
+        ops = simlib.gen_case(rng, prof, 25 if tier == "quick" else 60)
+        while ops and ops[-1] in ("destroy", "cancel"):
+            ops.pop()
+        k = rng.choice([rng.randint(0, 120), rng.randint(0, 400), rng.randint(0, 1500)])
+        # (no usability probe here: its fixed reply script assumes a quiet UDP channel)
+        cases.append(["# scenario=random index=%d" % k, "allocfail at=%d" % k] + ops + ["alloccount", "allocfail at=-1", "cancel", "destroy"])
+    return cases
+
+
+STREAMS = STREAMS + [
+    Stream("allocfail-random", "h_sim", None, gen_random, monitor=monitor,
+           nontrivial=lambda c, o: any(l.startswith("allocs=") and not l.endswith("fired=0") for l in o),
+           opkind=lambda l: l.split()[0] if not l.startswith("#") else "scenario:random"),
+]
+
+
 def _container_streams():
     # the tie of the container-atomicity theorems: the containers under a failing allocator (C19's harness and model)
     from props import C19 as _c19
